@@ -83,7 +83,7 @@ def enum_small(tier):
 def tuple_cases(draw):
     """tuple coordinates: equal arity (all operators) or mixed arity (& only)"""
     mixed = draw(st.booleans())
-    default = 0
+    default = draw(st.sampled_from([0, 0, 5]))
     if not mixed:
         ar = draw(st.integers(1, 3))
         universe = sorted(draw(st.sets(st.tuples(*[st.integers(0, 2)] * ar), min_size=0, max_size=6)))
@@ -95,7 +95,7 @@ def tuple_cases(draw):
                 if s != "absent":
                     elems.append([list(c), default if s == "xdefault" else draw(gen.nondefault_values(default))])
             fs.append({"elems": elems, "arity": ar})
-        return {"mixed": False, "fibers": fs}
+        return {"mixed": False, "fibers": fs, "default": default}
     ar_long = draw(st.integers(2, 3))
     ar_short = draw(st.integers(0, ar_long - 1))   # 0 = plain int coordinates
     long_c = sorted(draw(st.sets(st.tuples(*[st.integers(0, 3)] * ar_long), min_size=1, max_size=6)))
@@ -113,7 +113,7 @@ def tuple_cases(draw):
     fl = {"elems": mk(long_c), "arity": ar_long}
     fs_ = {"elems": mk(short_c), "arity": ar_short}
     order = draw(st.booleans())
-    return {"mixed": True, "fibers": [fl, fs_] if order else [fs_, fl]}
+    return {"mixed": True, "fibers": [fl, fs_] if order else [fs_, fl], "default": default}
 
 
 # ---------------------------------------------------------------- building
@@ -385,13 +385,13 @@ def _fresh(o, c, p, where):
 
 # ---------------------------------------------------------------- tuple coordinates
 def check_tuple(case, rec):
-    default = 0
+    default = case.get("default", 0)
     fs = []
     for d in case["fibers"]:
         coords = [model.tuplify(c) for c, _ in d["elems"]]
         # tuple-coordinate ranks carry a tuple shape (as flattened tensors do); extent 4 per component
         shp = 4 if d["arity"] == 0 else (4,) * d["arity"]
-        f = Fiber(coords, [v for _, v in d["elems"]], shape=shp)
+        f = Fiber(coords, [v for _, v in d["elems"]], shape=shp, default=default)
         fs.append((f, coords, [v for _, v in d["elems"]], observe.snap(f)))
     (fa, ca, va, s_a), (fb, cb, vb, s_b) = fs
     pa = [c for c, v in zip(ca, va) if v != default]
@@ -448,6 +448,7 @@ def check_tuple(case, rec):
         rec.cls("tuple-mixed-arity")
         rec.cls("int-vs-tuple", min(ara, arb) == 0)
         rec.nontrivial(len(want) >= 1 and (len(pa) < len(ca) or len(pb) < len(cb) or len(want) < max(len(pa), len(pb))))
+    rec.cls("tuple-nonzero-default", default != 0)
     if observe.snap(fa) != s_a or observe.snap(fb) != s_b:
         raise Violation("operand-modified", "tuple-coordinate operand changed by co-iteration")
 
